@@ -225,9 +225,9 @@ def judge_values(ctx, vrows):
                 ctx.count("model-declines")
         allh = [obs["parent"]] + obs["children"] + ([obs["shuffled"]] if "shuffled" in obs else [])
         ok = not any(h.startswith("!") for h in allh) and len(set(allh)) == 1
-        u = H.unordered_elements(r["spec"])
+        u = H.mixed_key_dicts(r["spec"])
         defect = None  # no finding is listed for C07: every disagreement between sessions is a violation
-        ctx.count("value:" + ("unorderable-dict-keys" if u else ("set-of-sets" if any(n["k"] in ("set", "frozenset") and sum(1 for e in n["xs"] if e["k"] in ("set", "frozenset")) >= 2 for n in H.walk(r["spec"])) else "other")))
+        ctx.count("value:" + ("mixed-class-dict-keys" if u else ("set-of-sets" if any(n["k"] in ("set", "frozenset") and sum(1 for e in n["xs"] if e["k"] in ("set", "frozenset")) >= 2 for n in H.walk(r["spec"])) else "other")))
         ctx.count("value-root:" + r["spec"]["k"])
         ctx.judge(
             {"kind": "value", "spec": r["spec"]},
